@@ -18,7 +18,8 @@ from concurrent.futures import ThreadPoolExecutor
 
 from bounded import standin
 
-from ._sessions import CATS, PY, PYPROJECT_PLAIN, Failures, Project, clean_env, replay_script, same_ast, tail
+from ._sessions import (CATS, PY, PYPROJECT_PLAIN, Deadline, Failures, Project, Skipped, clean_env, replay_script, result_for,
+                        same_ast, set_deadline, tail)
 
 ALL_SUBSETS = [tuple(c for c, b in zip(CATS, bits) if b) for bits in itertools.product((0, 1), repeat=4)]
 HEADER_OF = {"create": "Create snapshots", "fix": "Fix snapshots", "trim": "Trim snapshots", "update": "Update snapshots"}
@@ -55,7 +56,9 @@ json.dump(out, open(sys.argv[2], "w"), default=repr)
 '''
 
 
-def run_drivers(files, flag_args, drivers=("inline", "pytest")):
+def run_drivers(files, flag_args, drivers=("inline", "pytest"), deadline=None):
+    if deadline is not None and deadline.expired():
+        raise Skipped()
     d = tempfile.mkdtemp(prefix="bdrv-")
     try:
         spec = dict(files=files, flag_args=list(flag_args), pytest_args=["-p", "no:cacheprovider", "-p", "no:benchmark"],
@@ -112,7 +115,9 @@ class A:
         return "<A>"
 
     def __eq__(self, other):
-        return isinstance(other, A)
+        if not isinstance(other, A):
+            return NotImplemented
+        return True
 
 
 def test_a():
@@ -296,23 +301,24 @@ def replay_drivers(files, F):
         "print('raw   ', raw); print('inline', ci.value); print('pytest', cp.value)",
         "assert cp.value == raw, 'run_pytest differs from raw session'",
         "assert ci.value == raw, 'run_inline differs from raw session'",
-        "rep = session(PROJ if not raw else (os.mkdir(os.path.join(ROOT, 'p2')) or write(os.path.join(ROOT, 'p2'), FILES) or os.path.join(ROOT, 'p2')),"
-        " ['--inline-snapshot=' + ','.join([*" + repr(list(F)) + ", 'report'])])",
+        "P2 = os.path.join(ROOT, 'p2'); os.mkdir(P2); write(P2, FILES)",
+        f"rep = session(P2, ['--inline-snapshot=' + ','.join({[*F, 'report']!r})])",
         f"listed = sorted(c for c, h in {HEADER_OF!r}.items() if h in rep['out'])",
         "assert cc.value == listed, (cc.value, listed)",
     ]
     return replay_script("\n".join(body))
 
 
-def run_case(pname, files, F):
-    """-> dict(raw=..., rawrep=..., drv=...)"""
+def submit_case(ex, pname, files, F, deadline=None):
+    """three independent jobs per case: both library drivers (one subprocess), raw session with F, raw session with F+report"""
     flag_args = ["--inline-snapshot=" + ",".join(F)] if F else []
-    drv = run_drivers(files, flag_args)
-    with Project(files) as p:
-        raw = p.run(flag_args)
-    with Project(files) as p:
-        rep = p.run(["--inline-snapshot=" + ",".join([*F, "report"])])
-    return dict(drv=drv, raw=raw, rep=rep)
+
+    def raw_job(args):
+        with Project(files) as p:
+            return p.run(args)
+
+    return dict(drv=ex.submit(run_drivers, files, flag_args, ("inline", "pytest"), deadline), raw=ex.submit(raw_job, flag_args),
+                rep=ex.submit(raw_job, ["--inline-snapshot=" + ",".join([*F, "report"])]))
 
 
 @standin("B-drivers", props=["C19"],
@@ -320,11 +326,23 @@ def run_case(pname, files, F):
                "Example.run_inline vs Example.run_pytest vs raw pytest subprocess (changed files as text) and run_inline's "
                "reported categories vs the headers of a `--inline-snapshot=<F>,report` session")
 def run(tier, seed):
+    return _run(tier, seed)
+
+
+def run_for(pid, tier, seed):
+    return result_for(pid, _run(tier, seed))
+
+
+run.run_for = run_for
+
+
+def _run(tier, seed):
     t0 = time.time()
     rng = random.Random(seed)
     fails = Failures()
     samples, cross = [], []
     evaluated = distinct = 0
+    deadline = set_deadline(Deadline(tier))
     try:
         quick = tier == "quick"
         P = projects(rng, quick)
@@ -338,14 +356,16 @@ def run(tier, seed):
                 subs = ALL_SUBSETS
             for F in subs:
                 cases.append((pname, files, tuple(F)))
-        with ThreadPoolExecutor(max_workers=4 if quick else 5) as ex:
-            futs = [(c, ex.submit(run_case, *c)) for c in cases]
+        with ThreadPoolExecutor(max_workers=8) as ex:
+            futs = [(c, submit_case(ex, *c, deadline)) for c in cases]
             for (pname, files, F), f in futs:
-                evaluated += 3
-                distinct += 1
                 desc = dict(project=pname, flags=list(F))
                 try:
-                    res = f.result()
+                    res = {k: v.result() for k, v in f.items()}
+                    evaluated += 3
+                    distinct += 1
+                except Skipped:
+                    continue
                 except BaseException:
                     fails.add(None, desc, "harness exception:\n" + traceback.format_exc(), "")
                     continue
@@ -385,5 +405,9 @@ def run(tier, seed):
         ]
     except BaseException:
         fails.add(None, "B-drivers driver", "driver exception:\n" + traceback.format_exc(), "")
-    return dict(evaluated=evaluated, distinct=distinct, failures=fails.items, samples=samples[:5], cross_checks=cross,
+    finally:
+        set_deadline(None)
+    if deadline.skipped:
+        cross.append(f"BUDGET: {deadline.skipped} jobs skipped because the {tier} wall-clock budget was used up")
+    return dict(skipped=deadline.skipped, evaluated=evaluated, distinct=distinct, failures=fails.items, samples=samples[:5], cross_checks=cross,
                 seconds=round(time.time() - t0, 1), dropped={str(k): v for k, v in fails.dropped.items()})
